@@ -53,6 +53,9 @@ ROWS = [
     (39, r"^C06-R9\|PendingComp\|outermost-iterable-under-own-targets$", "def f():\\n x = [1, 2]\\n def g(): return x\\n return [x * 2 for x in x], g()  -> NameError: name 'x' is not defined (the outermost iterable is rewritten with the comprehension's own targets in force)", "known"),
     (40, r"^C12-R9\|", "class Csv(Plugin): name = 'csv' with Plugin.__init_subclass__ registering cls.name -> AttributeError; descriptors' __set_name__ never called; class Stack(typing.Generic[T]) -> TypeError (MRO entry resolution); @classmethod def __init_subclass__ -> classmethod(classmethod(f)), TypeError on 3.8/3.13", "known"),
     (41, r"^C14-R6\|", "package pkg with a.py: `from . import b` and b.py: `from . import a` (a legal circular import, run as python -m pkg) -> AttributeError after conversion; `from os import nope` -> AttributeError instead of ImportError", "known"),
+    (43, r"^C13-R9\|", "a, b = [1, 2, 3] -> silently binds 1, 2 (Python: ValueError); r, *s = [] -> IndexError instead of ValueError", "known"),
+    (44, r"^C15-R8\|", "def report(a):\\n b = 2\\n for i in range(1): print('{a} {b} {i}'.format(**locals()))  -> KeyError 'a' on runtimes 3.8-3.11 (text converted on 3.12)", "known"),
+    (45, r"^C17-R6\|", "if_style=short_circuit, unparser=oneliner: an if with 219 elif branches and an else -> MemoryError: Parser stack overflowed (if_expr converts 1000)", "known"),
     (37, r"^C12-R8\|", "class A:\\n __x = 1  /  def f(self): __t = 5  /  def __helper(self) -> KeyError during conversion; self.__x = 1 -> attribute `__x` instead of `_A__x`", "known"),
     (33, r"^C02-R2\|\w+\|[\w.]+\|index-tuple-with-slice", "a[1:2, 3] = 0 -> a.__setitem__((1:2, 3), 0), not an expression", "fix 0012"),
 ]
